@@ -488,7 +488,12 @@ func (vc *VC) strLit(v string) Term {
 			vc.cmd(fmt.Sprintf("(assert (= (sbyte %s %d) %d))", n, i, v[i]))
 		}
 	}
+	var others []string
 	for _, o := range vc.strLits {
+		others = append(others, o)
+	}
+	sort.Strings(others) // deterministic query text (map order would reorder these assertions from run to run)
+	for _, o := range others {
 		vc.cmd(fmt.Sprintf("(assert (not (= %s %s)))", n, o))
 	}
 	if len(v) > 0 {
